@@ -1,6 +1,6 @@
 #!/bin/sh
 # usage: tools/adopt_round.sh <round> <Cxx>  — copy /tmp/seed<round>/<id>/out/{1,2} to /tmp/seed/<id>/out/{1,2}+offset (round 2: +3, round 3: +5)
-r="$1"; id="$2"; off=3; [ "$r" = 3 ] && off=5
+r="$1"; id="$2"; off=3; [ "$r" = 3 ] && off=5; [ "$r" = 4 ] && off=7
 for k in 1 2; do
   [ -d /tmp/seed$r/$id/out/$k ] || continue
   n=$((k+off)); rm -rf /tmp/seed/$id/out/$n; mkdir -p /tmp/seed/$id/out; cp -r /tmp/seed$r/$id/out/$k /tmp/seed/$id/out/$n
